@@ -129,3 +129,17 @@ def eligible_print(spec: EnumSpec):
             continue
         out.append(i)
     return out
+
+
+WEIRD = ["\t", " ", "\"", "\\", "é", "ß", "{{", "}}", "-", "_", ".", "'", "İ", "0"]
+
+
+def rand_lit(rng, tag, minlen=1, maxlen=5, weird=0.5):
+    """a literal made unique by `tag`, optionally salted with characters that need escaping in Rust source, non-ASCII
+    letters, doubled braces and whitespace (shapes the hand-written tests never use)"""
+    n = rng.randint(minlen, maxlen)
+    body = "".join(rng.choice("abcXYZ") for _ in range(n))
+    if rng.random() < weird:
+        k = rng.randint(0, len(body))
+        body = body[:k] + rng.choice(WEIRD) + body[k:]
+    return "%s%s" % (body, tag)
